@@ -305,7 +305,8 @@ class Parser:
 
         if (final_line or self.new_statement) and self.statement:
             # end of sql operation, remove ; from end of line
-            self.statement = self.statement[:-1]
+            if self.statement.endswith(";"):
+                self.statement = self.statement[:-1]
         elif last_line and not self.skip:
             # continue combine lines in one massive
             return
@@ -319,6 +320,12 @@ class Parser:
             self.parse_statement()
         if self.new_statement:
             self.statement = self.line
+            if self.statement.endswith(";") and not self.set_was_in_line:
+                # one-line statement that follows a statement without ';'
+                self.statement = self.statement[:-1]
+                self.new_statement = False
+                self.set_default_flags_in_lexer()
+                self.process_statement()
         else:
             self.statement = None
 
